@@ -92,6 +92,60 @@ def exact_root(r):
     return r["cls"] == "dyadic" and is_pow2(r["n"] - 1)
 
 
+HEXRE = re.compile(r"^0x[0-9a-f]{16}$")
+
+
+def nonfinite_in(o, path="", skip=()):
+    """paths of the f64 bit patterns inside an observation that are NaN or infinite"""
+    out = []
+    if isinstance(o, str):
+        if HEXRE.match(o) and not is_finite_hex(o):
+            out.append((path, f64_of_hex(o)))
+    elif isinstance(o, list):
+        for i, x in enumerate(o):
+            out += nonfinite_in(x, f"{path}[{i}]", skip)
+            if len(out) > 8:
+                break
+    elif isinstance(o, dict):
+        for k, x in o.items():
+            if k not in skip:
+                out += nonfinite_in(x, f"{path}.{k}" if path else k, skip)
+    return out
+
+
+def brief(o, limit=12):
+    """an observation with long arrays cut (for replay files)"""
+    if isinstance(o, list):
+        return [brief(x, limit) for x in o[:limit]] + (["…(%d more)" % (len(o) - limit)] if len(o) > limit else [])
+    if isinstance(o, dict):
+        return {k: brief(v, limit) for k, v in o.items()}
+    return o
+
+
+def prescan(ctx, o, what, inp, sig_extra=None):
+    """non-finite values delivered by the implementation are a violation with the input, never an exception"""
+    bad = nonfinite_in(o)
+    if not bad:
+        return False
+    path, val = bad[0]
+    ctx.violation("S5", f"{what}: the implementation delivered a non-finite value ({val!r} at {path}" + (f", and {len(bad) - 1} more" if len(bad) > 1 else "") + ")",
+                  dict({"kind": "non_finite", "obs": o.get("kind", "?")}, **(sig_extra or {})), dict(inp, non_finite_at=[b[0] for b in bad], observation=brief(o)))
+    return True
+
+
+def guarded_oracle(ctx, name, fn, *args):
+    """an oracle must never end the check with a traceback: an exception becomes a reported failure naming the stage"""
+    try:
+        return fn(*args)
+    except Exception:
+        import traceback
+        tb = traceback.format_exc()
+        ctx.log(f"   oracle {name} raised: {tb.splitlines()[-1]}")
+        ctx.violation("S5", f"the {name} oracle could not evaluate the harness output ({tb.splitlines()[-1][:160]})", {"kind": "oracle_exception", "oracle": name},
+                      {"trace": tb[-3000:]}, found_input=False)
+        return None
+
+
 def relclose(a, b, tol, scale):
     return abs(Fraction(a) - Fraction(b)) <= tol * scale
 
@@ -112,6 +166,8 @@ def oracle_trees(ctx, obs):
             ctx.count(f"tree1d:{r['mode']}:" + ("leaf" if t == "L" else "nodes<=3" if tree_size(t) <= 3 else "nodes>3"))
             if o.get("panic"):
                 ctx.violation("S5", f"1-D producer panics when split along an admissible tree: {o['panic']}", sig("tree_panic"), dict(inp, panic=o["panic"]))
+                continue
+            if prescan(ctx, o, inp["call"], inp, {"dim": 1}):
                 continue
             exp_lens = tree_leaves(t, n)
             if o["lens"] != exp_lens:
@@ -163,6 +219,8 @@ def oracle_trees(ctx, obs):
             if o.get("panic"):
                 ctx.violation("S5", f"2-D producer panics when split along an admissible tree: {o['panic']}", sig("tree_panic"), dict(inp, panic=o["panic"]))
                 continue
+            if prescan(ctx, o, inp["call"], inp, {"dim": 2}):
+                continue
             exp_lens = tree_leaves(t, n)
             if o["lens"] != exp_lens:
                 ctx.violation("S5", f"2-D producer of {n} points split along {o['tree'][:60]}: the leaves yield {o['lens']} items, the split points ask for {exp_lens}",
@@ -183,6 +241,9 @@ def oracle_trees(ctx, obs):
                 ctx.violation("S5", "2-D producer under enumerate(): positions are not 0,1,2,… in order with the sequential points", sig("tree_enumerate"), inp)
             if o.get("enum_panic"):
                 ctx.violation("S5", f"2-D producer under enumerate() panics: {o['enum_panic']}", sig("tree_panic"), inp)
+        elif k == "seq_panic":
+            call = f"Steps2D(({f64_of_hex(o['x'][0])!r}, {f64_of_hex(o['x'][1])!r}, {o['x'][2]}), ({f64_of_hex(o['y'][0])!r}, {f64_of_hex(o['y'][1])!r}, {o['y'][2]})).into_iter().collect()"
+            ctx.violation("S5", f"{call} (the sequential traversal) panicked: {o['message'][:200]}", {"kind": "sequential_panic", "dim": 2}, {"call": call, "x": o["x"], "y": o["y"], "message": o["message"]})
         elif k == "split0_1d":
             if o["panic"]:
                 ctx.note(f"ParIterator1D::split_at(0) panics in this build ({o['panic']}): `index - 1` on usize; not reachable through rayon's bridge (mid >= 1)")
@@ -213,9 +274,17 @@ def oracle_pools(ctx, obs):
             ctx.violation("S5", f"{o['what']} did not complete within {o['limit_s']} s on a pool of {o['threads']} thread(s): dead-lock suspected",
                           {"kind": "timeout", "what": o["what"]}, o)
         elif k == "pool_panic":
-            ctx.violation("S5", f"{o['what']} panicked on a pool of {o['threads']} thread(s)", {"kind": "pool_panic", "what": o["what"]}, o)
+            ctx.violation("S5", f"{o['what']} panicked on a pool of {o['threads']} thread(s): {o.get('message', '')[:160]}", {"kind": "pool_panic", "what": o["what"]}, o)
+        elif k == "seq_panic":
+            call = f"Steps2D(({f64_of_hex(o['x'][0])!r}, {f64_of_hex(o['x'][1])!r}, {o['x'][2]}), ({f64_of_hex(o['y'][0])!r}, {f64_of_hex(o['y'][1])!r}, {o['y'][2]})).into_iter().collect()"
+            ctx.violation("S5", f"{call} (the sequential traversal) panicked: {o['message'][:200]}", {"kind": "sequential_panic", "dim": 2}, {"call": call, "x": o["x"], "y": o["y"], "message": o["message"]})
         elif k == "pool_grid":
+            if o["case"] not in refs:
+                continue
             r = refs[o["case"]]
+            if prescan(ctx, o, f"Steps({f64_of_hex(r['s'])!r}, {f64_of_hex(r['e'])!r}, {r['n']}) / Steps2D(.., {r['nx']}) x (.., {r['ny']}) collected/summed by rayon on {o['threads']} thread(s)",
+                       {"threads": o["threads"], "steps": [r["s"], r["e"], r["n"]], "grid": [r["nx"], r["ny"], r["y0"], r["y1"]]}):
+                continue
             ctx.seen(("pool_grid", o["case"], o["threads"], o["rep"]))
             ctx.count(f"pool_grid:threads={o['threads']}")
             S, E = H(r["s"]), H(r["e"])
@@ -238,6 +307,8 @@ def oracle_pools(ctx, obs):
                 if not relclose(H(o["sum1"]), H(ref["sum1"]), TOL_RED, s1) or not relclose(H(o["sum2"]), H(ref["sum2"]), TOL_RED, s2):
                     ctx.violation("S5", f"parallel sum over a grid on {o['threads']} thread(s) differs from the single-thread result by more than 1e-12", {"kind": "pool_sum"}, inp)
         elif k == "pool_quad":
+            if prescan(ctx, o, f"Simpson quadrature (divs {o['divs']} / 2-D divs {o['divs2']}) on {o['threads']} thread(s)", {kk: o[kk] for kk in ("threads", "divs", "divs2", "a", "b", "w")}):
+                continue
             ctx.seen(("pool_quad", o["case"], o["threads"]))
             ctx.count(f"pool_quad:threads={o['threads']}")
             key = ("q", o["case"])
@@ -251,6 +322,8 @@ def oracle_pools(ctx, obs):
                         ctx.violation("S5", f"{'Simpson' if name == 'i1' else '2-D Simpson'} quadrature on {o['threads']} thread(s) differs from the single-thread result by more than 1e-12 relative",
                                       {"kind": "pool_quadrature", "which": name}, {kk: o[kk] for kk in ("threads", "divs", "divs2", "a", "b", "w", name)} | {"single_thread": ref[name]})
         elif k == "pool_spdc":
+            if prescan(ctx, o, f"spectra / counts / HOM of {o['setup']} on {o['threads']} thread(s)", {"threads": o["threads"], "setup": o["setup"], "nx": o["nx"], "ny": o["ny"], "divs": o["divs"]}):
+                continue
             ctx.seen(("pool_spdc", o["case"], o["threads"]))
             ctx.count(f"pool_spdc:{o['setup'][:12]}:threads={o['threads']}")
             key = ("s", o["case"])
@@ -301,6 +374,63 @@ def oracle_pools(ctx, obs):
                 if not relclose(a_, b_, TOL_RED, max(abs(b_), Fraction(1, 1000) if "hom" in name else Fraction(1, 10**300))):
                     ctx.violation("S5", f"{name} on {o['threads']} thread(s) = {float(a_)!r} differs from the single-thread result {float(b_)!r} by more than 1e-12 relative",
                                   {"kind": "pool_reduction", "fn": name}, dict(inp, got=v, single_thread=ref["scalars"][name]))
+
+
+def oracle_short(ctx, obs):
+    """the 1-D producer through real rayon drives on every length 0..40: same points, same positions (1e-14 of the range scale; exact on dyadic ranges
+    is NOT required here: the property allows rounding for 1-D ranges), counts, sums to 1e-12"""
+    refs = {(o["len"], o["rep"]): o for o in obs if o["kind"] == "short_ref"}
+    for o in obs:
+        if o["kind"] == "short_failed":
+            r = refs[(o["len"], o["rep"])]
+            ctx.violation("S5", f"Steps({f64_of_hex(o['s'])!r}, {f64_of_hex(o['e'])!r}, {o['len']}).into_par_iter() driven by rayon (collect / map / sum / for_each / enumerate) on {o['threads']} thread(s) "
+                                f"panicked or timed out" + (" (debug build: overflow checks on)" if o.get("debug_assertions") else ""),
+                          {"kind": "short_range_panic", "len": o["len"] if o["len"] < 2 else "2+"}, {"call": f"Steps(s, e, {o['len']}).into_par_iter()", "s": o["s"], "e": o["e"], "threads": o["threads"]})
+            continue
+        if o["kind"] != "short":
+            continue
+        r = refs[(o["len"], o["rep"])]
+        n, T = o["len"], o["threads"]
+        call = f"Steps({f64_of_hex(r['s'])!r}, {f64_of_hex(r['e'])!r}, {n}).into_par_iter()"
+        inp = {"call": call, "start": r["s"], "end": r["e"], "n": n, "threads": T, "sequential": brief(r["seq"])}
+        ctx.seen(("short", r["s"], r["e"], n, T))
+        ctx.count(f"short:len={'0' if n == 0 else '1' if n == 1 else '2' if n == 2 else '3-8' if n <= 8 else '9-40'}:threads={T}")
+        lenclass = str(n) if n < 3 else "3+"
+        bad = nonfinite_in({k: o[k] for k in ("collect", "map_collect", "sum", "map_sum", "for_each_sorted", "enum_vals")})
+        if bad:
+            path, val = bad[0]
+            which = path.split("[")[0]
+            pos = path[path.index("[") + 1:-1] if "[" in path else ""
+            seqv = f64_of_hex(r["seq"][int(pos)]) if pos.isdigit() and which != "for_each_sorted" and int(pos) < len(r["seq"]) else None
+            ctx.violation("S5", f"{call}.{ {'collect': 'collect()', 'map_collect': 'map(|x| x).collect()', 'sum': 'sum()', 'map_sum': 'map(|x| 2x).sum()', 'for_each_sorted': 'for_each(..)', 'enum_vals': 'enumerate().collect()'}.get(which, which) } "
+                                f"on {T} thread(s): " + (f"position {pos} is {val!r} in parallel but {seqv!r} sequentially" if seqv is not None else f"the result is {val!r}") +
+                                f" ({len(bad)} non-finite value(s) in this run)",
+                          {"kind": "short_range_non_finite", "len": lenclass}, dict(inp, non_finite_at=[b[0] for b in bad], observation=brief(o)))
+            continue
+        S, E = H(r["s"]), H(r["e"])
+        scale = max(abs(S), abs(E))
+        seq = r["seq"]
+        for key, what in (("collect", "collect()"), ("map_collect", "map(|x| x).collect()"), ("enum_vals", "enumerate().collect()")):
+            v = o[key]
+            if len(v) != n:
+                ctx.violation("S5", f"{call}.{what} on {T} thread(s) delivers {len(v)} points instead of {n}", {"kind": "short_range_count", "len": lenclass}, dict(inp, got=brief(v)))
+                continue
+            badpos = [i for i in range(n) if v[i] != seq[i] and not relclose(H(v[i]), H(seq[i]), TOL_1D, scale)]
+            if badpos:
+                i = badpos[0]
+                ctx.violation("S5", f"{call}.{what} on {T} thread(s): position {i} is {f64_of_hex(v[i])!r} in parallel but {f64_of_hex(seq[i])!r} sequentially (more than 1e-14 of the range scale apart)",
+                              {"kind": "short_range_values", "len": lenclass}, dict(inp, position=i, got=brief(v)))
+        if o["count"] != n or not o["enum_idx_ok"] or len(o["for_each_sorted"]) != n:
+            ctx.violation("S5", f"{call} on {T} thread(s): count() = {o['count']}, for_each visited {len(o['for_each_sorted'])} points, enumerate positions ok = {o['enum_idx_ok']} (expected {n} points)",
+                          {"kind": "short_range_count", "len": lenclass}, inp)
+        else:
+            srt = sorted(H(x) for x in seq)
+            if any(not relclose(H(a), b, TOL_1D, scale) for a, b in zip(o["for_each_sorted"], srt)):
+                ctx.violation("S5", f"{call}.for_each on {T} thread(s) visits points that differ from the sequential ones by more than 1e-14 of the range scale", {"kind": "short_range_values", "len": lenclass}, inp)
+        tot = sum(H(x) for x in seq)
+        sabs = sum(abs(H(x)) for x in seq) or Fraction(1)
+        if not relclose(H(o["sum"]), tot, TOL_RED, sabs) or not relclose(H(o["map_sum"]), 2 * tot, TOL_RED, 2 * sabs):
+            ctx.violation("S5", f"{call}.sum() on {T} thread(s) = {f64_of_hex(o['sum'])!r}, the sequential points sum to {float(tot)!r} (more than 1e-12 apart)", {"kind": "short_range_sum", "len": lenclass}, inp)
 
 
 def log_tree(splits, lo, hi):
@@ -390,7 +520,7 @@ def oracle_simpson(ctx, obs):
                 if not ok:
                     ctx.violation("S5", f"{what} with divs = {d} on {pool} (rayon::current_num_threads() = {o['current_num_threads']}): Integrator::Simpson {{ divs: {d} }}.{call} = "
                                         f"({f64_of_hex(re_)!r}, {f64_of_hex(im_)!r}) but the rule is exact on cubics and the integral is ({float(ex[0])!r}, {float(ex[1])!r}); "
-                                        f"relative deviation {abs(float((H(re_) - ex[0]) / ex[0])):.2e} (the other division counts / pool sizes agree with the exact value)",
+                                        f"relative deviation {(abs(float((H(re_) - ex[0]) / ex[0])) if is_finite_hex(re_) else float('nan')):.2e} (the other division counts / pool sizes agree with the exact value)",
                                   {"kind": "simpson_exactness", "which": key, "parallel_branch": bool(key == "one" and d + d % 2 - 2 >= 128)},
                                   {"call": f"Integrator::Simpson {{ divs: {d} }}.{call}", "threads": o["threads"], "current_num_threads": o["current_num_threads"], "divs": d,
                                    "p_coefficients": r["c"], "q_coefficients": r["ci"], "a": r["a"], "b": r["b"], "a2": r["a2"], "b2": r["b2"],
@@ -527,22 +657,25 @@ def run(ctx):
     obs = run_harness(ctx, binp, ["c15", ctx.seed, 2 if quick else 10, "trees", tier], timeout=900)
     if not any(o["kind"] == "done" for o in obs):
         ctx.violation("S5", "harness did not finish the split-tree runs", {"kind": "crash"}, {"tail": obs[-1] if obs else None})
-    oracle_trees(ctx, obs)
+    guarded_oracle(ctx, "split-tree", oracle_trees, ctx, obs)
     ne, ng = selftest(ctx, obs)
     ctx.log(f"S5 oracle self-test: {ng}/{ne} corrupted observations flagged")
     pobs = run_harness(ctx, binp, ["c15", ctx.seed, 2 if quick else 4, "pools", tier], timeout=2400)
     if not any(o["kind"] in ("done", "timeout") for o in pobs):
         ctx.violation("S5", "harness did not finish the thread-pool runs", {"kind": "crash"}, {"tail": pobs[-1] if pobs else None})
-    oracle_pools(ctx, pobs)
+    guarded_oracle(ctx, "thread-pool", oracle_pools, ctx, pobs)
+    shobs = run_harness(ctx, binp, ["c15", ctx.seed, 1 if quick else 3, "short"], timeout=1200)
+    guarded_oracle(ctx, "thread-pool", oracle_pools, ctx, [o for o in shobs if o["kind"] in ("timeout", "pool_panic")])
+    guarded_oracle(ctx, "short-range", oracle_short, ctx, shobs)
     bobs = run_harness(ctx, binp, ["c15", ctx.seed, 3 if quick else 20, "bridge"], timeout=600)
     oracle_pools(ctx, [o for o in bobs if o["kind"] in ("timeout", "pool_panic")])
     if os.path.exists(os.path.join(COQ, "Model", "C15_Bridge.vo")):
-        oracle_bridge(ctx, bobs)
+        guarded_oracle(ctx, "bridge", oracle_bridge, ctx, bobs)
     sobs = run_harness(ctx, binp, ["c15", ctx.seed, 2 if quick else 8, "simpson"], timeout=1200)
     if not any(o["kind"] in ("done", "timeout") for o in sobs):
         ctx.violation("S5", "harness did not finish the Simpson runs", {"kind": "crash"}, {"tail": sobs[-1] if sobs else None})
     oracle_pools(ctx, [o for o in sobs if o["kind"] in ("timeout", "pool_panic")])
-    oracle_simpson(ctx, sobs)
+    guarded_oracle(ctx, "simpson", oracle_simpson, ctx, sobs)
     # self-test: a parallel branch that drops the last node (relative change ~ 1/(3 divs)) must be flagged at its division counts only
     import copy
     so = next((o for o in sobs if o["kind"] == "simpson"), None)
@@ -576,20 +709,29 @@ def run(ctx):
         try:
             bind = build_harness(ctx, profile="debug")
             dobs = run_harness(ctx, bind, ["c15", ctx.seed, 1, "trees", "quick"], timeout=1800)
-            oracle_trees(ctx, dobs)
+            guarded_oracle(ctx, "split-tree (debug build)", oracle_trees, ctx, dobs)
+            dsh = run_harness(ctx, bind, ["c15", ctx.seed, 1, "short"], timeout=1800)
+            guarded_oracle(ctx, "thread-pool (debug build)", oracle_pools, ctx, [o for o in dsh if o["kind"] in ("timeout", "pool_panic")])
+            guarded_oracle(ctx, "short-range (debug build)", oracle_short, ctx, dsh)
         except CheckError as e:
             ctx.note("debug-profile harness could not be built: " + str(e)[:200])
     if os.path.exists(os.path.join(COQ, "Model", "GridCheck.vo")):
-        correspondence(ctx, obs, quick)
+        try:
+            correspondence(ctx, [o for o in obs if not nonfinite_in(o)], quick)
+        except Exception:
+            import traceback
+            tb = traceback.format_exc()
+            ctx.proof_failures.append(("Cases/C15", "correspondence", "could not be generated: " + tb.splitlines()[-1][:200]))
     else:
         ctx.note("correspondence cases skipped: generated model did not compile")
     if not proved and not any(v["found_input"] for v in ctx.violations):
         ctx.log("S5 deep search for a failing input (proof obligations are broken)")
         for k in range(2):
             obs2 = run_harness(ctx, binp, ["c15", ctx.seed + 1000 + k, 6, "trees", "thorough"], timeout=900)
-            oracle_trees(ctx, obs2)
-            oracle_simpson(ctx, run_harness(ctx, binp, ["c15", ctx.seed + 1000 + k, 6, "simpson"], timeout=1200))
-            oracle_pools(ctx, run_harness(ctx, binp, ["c15", ctx.seed + 1000 + k, 2, "pools", "quick"], timeout=1200))
+            guarded_oracle(ctx, "split-tree", oracle_trees, ctx, obs2)
+            guarded_oracle(ctx, "simpson", oracle_simpson, ctx, run_harness(ctx, binp, ["c15", ctx.seed + 1000 + k, 6, "simpson"], timeout=1200))
+            guarded_oracle(ctx, "thread-pool", oracle_pools, ctx, run_harness(ctx, binp, ["c15", ctx.seed + 1000 + k, 2, "pools", "quick"], timeout=1200))
+            guarded_oracle(ctx, "short-range", oracle_short, ctx, run_harness(ctx, binp, ["c15", ctx.seed + 1000 + k, 2, "short"], timeout=1200))
             if any(v["found_input"] for v in ctx.violations):
                 break
     ctx.cov["rule"] = ("split trees on the real producers: ALL proper trees for lengths 0..7 (0..8 thorough) in 1-D and for grids up to 8 points in 2-D; every single split "
@@ -611,6 +753,9 @@ def run(ctx):
                                                           "they are additionally held to 1e-12 per element",
         "detailed reduction-site table (sources, bindings, closures)": "pinned, not proved (C15_call_sites)",
         "rayon's scheduler": "modelled as any split tree; additionally bridge with an explicit steal oracle (C15_bridge_any_steals), validated against the real rayon via a logging producer",
+        "1-D range through real rayon drives on short ranges": "validated_only: every length 0..40 x pools of 1,2,3,4,8,16 threads x {collect, map.collect, sum, map.sum, count, for_each, enumerate} "
+                                                               "(everything that ends in Producer::fold_with); values to 1e-14 of the range scale as the property allows for 1-D ranges "
+                                                               "(bit changes within that bound are not reported), non-finite values and panics are violations with the call",
         "nested parallel regions complete": "validated, not proved (time-limited runs on pools of 1..16 threads)",
     }
     replay_filter(ctx, want)
